@@ -538,6 +538,7 @@ int main(int argc, char** argv)
         close(pfd[1]);
         std::string s = read_all(pfd[0]);
         int st; waitpid(pid, &st, 0);
+        { std::error_code ec; std::filesystem::remove_all(vx::scratch_dir() + "/C29-" + std::to_string(pid), ec); }
         size_t u0 = 0, u1 = 0;
         if (sscanf(s.c_str(), "C\t%zu\t%zu", &u0, &u1) != 2 || u1 <= u0) { printf("HARNESS-ERROR property=C29 calibration failed: %s\n", s.c_str()); return 2; }
         max_pool = (int64_t)u1 + (int64_t)(u1 - u0) / 2; // room for the fillers plus about one and a half transactions
@@ -567,6 +568,7 @@ int main(int argc, char** argv)
     auto reap = [&](Running r) {
         std::string s = read_all(r.fd);
         int st; waitpid(r.pid, &st, 0);
+        { std::error_code ec; std::filesystem::remove_all(vx::scratch_dir() + "/C29-" + std::to_string(r.pid), ec); } // in case the child died
         const Group& g = groups[r.gi];
         bool summary = false;
         std::string last_begun;
@@ -620,10 +622,10 @@ int main(int argc, char** argv)
                 for (auto& r : running) close(r.fd);
                 const Group& g = groups[next];
                 // quick: every sequence of length <= 3, plus length 4 over {P1,P2,P3,CH} where eviction / CPFP matter;
-                // thorough: every sequence of length <= 4, plus length 5 over {P1,P2,P3,CH,T}
-                int maxlen = big ? 4 : 3;
+                // thorough: every sequence of length <= 5
+                int maxlen = big ? 5 : 3;
                 std::vector<int> extra;
-                if (big) extra = {P1, P2, P3, CH, T};
+                if (big) extra = {};
                 else if (!g.test_accept && (g.state == EMPTY || g.state == FULL_RICH || g.state == FULL_RICH_WIDE)) extra = {P1, P2, P3, CH};
                 group_main(g, g.state == FULL_RICH_WIDE ? max_pool_wide : g.state >= FULL_CHEAP ? max_pool : 0, maxlen, extra, pfd[1]);
             }
@@ -652,7 +654,7 @@ int main(int argc, char** argv)
     E.set_str("outcome_classes_seen", flags);
     E.exhaustive = !incomplete;
     E.rule = "(a) every sequence of length 1.." + u(big ? 5 : 4) + " over 7 transactions (P1,P2,P3(P1),CH(P1,P2,P3),X conflicts with P2,T twin of P1,Z no inputs) through the 5 context-free predicates vs reference predicates, "
-             "count 24..27 and weight 403999..404004 edges; (b) every sequence of length 1.." + u(big ? 4 : 3) + " over the 6 real transactions plus every sequence of length " + u(big ? 5 : 4) + (big ? " over {P1,P2,P3,CH,T}" : " over {P1,P2,P3,CH} (empty and full-rich pools)") + " x pool state x fee profile x submit/test_accept "
+             "count 24..27 and weight 403999..404004 edges; (b) every sequence of length 1.." + u(big ? 5 : 3) + " over the 6 real transactions" + (big ? "" : " plus every sequence of length 4 over {P1,P2,P3,CH} (empty and full-rich pools)") + " x pool state x fee profile x submit/test_accept "
              "through ProcessNewPackage on a regtest node (one process per group, pool restored to the group's initial state after every case). distinct = predicate verdict classes + distinct (state, profile, well-formedness class, package verdict, per-tx result/membership) signatures";
     E.assume("the universe is one fixed dependency DAG (one child with three parents, one parent depending on another, one conflict pair, one same-txid twin); packages over other topologies (grandparents beyond one level, 25-transaction packages through ProcessNewPackage) are not enumerated");
     E.sample("signatures: " + flags.substr(0, 300));
